@@ -55,6 +55,7 @@ RULE = (
     "compare_server_default on; 20% of bases leave the proved class. Non-trivial = every evaluated (base, mutation); distinct by (kind, op list)"
 )
 ASSUMPTIONS = [
+    "Computed (generated) columns appear in C07 bases with nullable= always stated explicitly, so the documented 'nullability of a computed column whose nullable is unset is ignored' exception never applies and the model treats them as ordinary columns without server default",
     "dialect stream: type texts are ASCII; synonym groups and type_arg_extract results are read from the live impl and passed to the model as data; cross-family pairs that a synonym group of the unchanged code joins (e.g. NUMBER/INTEGER on Oracle, BOOL/TINYINT and JSON/LONGTEXT on MySQL) are followed, not judged",
     "a type change is 'to a different type family' when the first word of the SQLite DDL type differs (DECIMAL = NUMERIC) and the old type reflects by name",
     "a server default is 'changed' when its value (string value, or expression text without enclosing whitespace / one pair of parentheses / one pair of quotes) differs",
@@ -75,7 +76,7 @@ def run(ctx, n_bases=None, rng_name="main", max_seconds=None):
             ctx.note("search stopped after %d bases (time cap %ss)" % (i, max_seconds))
             break
         odd = rng.random() < 0.2
-        a = G.gen_schema(rng, odd=odd)
+        a = G.gen_schema(rng, odd=odd, computed=True)
         ctx.hist("base.class", "odd" if odd else "plain")
         ctx.hist("base.tables", len(a["tables"]))
         for desc, b in G.candidate_mutations(rng, a, odd):
